@@ -1042,6 +1042,11 @@ func runC12(c *Cfg) {
 	for _, w := range []int{2, 9, 12, 16} { // two follow-ups per task: 2*workers queued, exactly what the queue holds
 		pcs = append(pcs, &PoolCase{Family: "nested-submit-filling-the-queue", Workers: w, Tasks: w, Submitters: 1, Rounds: 1, Gated: true, Policy: "first", NestedSubmit: true, NestedKids: 2})
 	}
+	// well over a thousand submissions in one round while the very first task stays parked to the end (whatever
+	// bookkeeping the pool keeps per submission, Wait still covers the early straggler)
+	for _, w := range []int{2, 4} {
+		pcs = append(pcs, &PoolCase{Family: "early-straggler-behind-many-tasks", Workers: w, Tasks: 1300, Submitters: 4, Rounds: 1, Gated: true, Policy: "last"})
+	}
 	// many other pools alive at the same time (17 x 16 workers): this pool behaves as if it were alone
 	for _, w := range []int{1, 4, 16} {
 		pcs = append(pcs, &PoolCase{Family: "many-open-pools", Workers: w, Tasks: 3*w + 1, Submitters: 2, Rounds: 2, Gated: true, Policy: "random", PSeed: uint64(w), OpenPools: 17})
